@@ -595,6 +595,15 @@ def replay(ctx: Ctx, obj: dict) -> int:
     print('lean port of check_model:', ans['m']['res'], ans['m']['pair'])
     print('lean oracle: UPA =', ans['o'], ' EDC =', ans['edc'])
     print('independent position automaton: deterministic =', c15.glushkov_upa(ast, v11))
+    if c15.ast_of_json(ob['intro'].cjson) != c15.skeleton(ast):
+        ref0 = c15.glushkov_upa(ast, v11)
+        print('the built particles do not match the names the declarations give them (block configuration %r):' % c15.BLOCK_CFG)
+        print('  built   ', c15.ast_of_json(ob['intro'].cjson))
+        print('  declared', c15.skeleton(ast))
+        bad0 = ref0 is not None and impl_ok != (ref0 and c15.edc_ref(ast))
+        print('judgement (declared model, reference automaton):', 'property violated' if bad0 else 'property holds')
+        c15.set_block_cfg(None)
+        return 1 if bad0 else 0
     if ans['o']['upa'] == 'unknown':
         return 0
     expected = ans['o']['upa'] == 'det' and ans['edc']
